@@ -33,19 +33,23 @@ open SaModel SaModel.Build SaModel.Spec
 
 /-- **the state after a push is determined by the documented value.**  For every left inverse `un` of `strBytes`
 (one exists: `exists_unstr`; the dictionary builder keeps strings, the documented value their UTF-8 bytes):
-`erase b' = pushL un lv (erase b)` where `lv = interpDT … x` — the right-hand side does not mention `x`. -/
+`erase b' = pushL un lv (erase b)` where `lv = interpDT … x` — the right-hand side does not mention `x`.  State
+hypotheses: the WEAK state invariant `WFH` and `NoDictKey` of the hidden-rows refinement (Props/C01Obs.lean) — they hold of
+every state reached from a builder `build_builder` constructs, for EVERY schema, and are implied by the former hypotheses
+`WFB`, `Safe` (`WFH_of_WFB`, `NoDictKey_of_Safe`): no `Safe`.  (Also the slots hidden below a null are determined by the
+documented values: the placeholder key 0 of a non-nullable-key dictionary is part of `pushL`.) -/
 theorem push_determined (ext : Ext) (un : Bytes → String) (hun : ∀ s, un (strBytes s) = s)
     (x : SVal) (b b' : B) (dt : DataType) (n : Bool) (md : Metadata)
-    (hraw : noRaw x = true) (hwf : WFB b) (hsafe : Safe b) (hshape : Shape b dt n md) (h : push ext b x = .ok b') :
+    (hraw : noRaw x = true) (hwf : WFH b) (hnd : NoDictKey b) (hshape : Shape b dt n md) (h : push ext b x = .ok b') :
     ∃ lv, interpDT ext dt n md x = .ok lv ∧ erase b' = pushL un lv (erase b) := by
-  obtain ⟨_, _, _, lv, _, hi⟩ := C01.push_interp ext x b b' dt n md (noRaw_ssa x hraw) (Or.inl hraw) hwf hsafe hshape h
-  exact ⟨lv, hi, (push_phys ext un hun x b b' dt n md lv hraw hwf hsafe hshape h hi).symm⟩
+  obtain ⟨_, _, _, lv, _, hi⟩ := C01.push_interp' ext x b b' dt n md (noRaw_ssa x hraw) (Or.inl hraw) hwf hnd hshape h
+  exact ⟨lv, hi, (push_phys ext un hun x b b' dt n md lv hraw hwf hnd hshape h hi).symm⟩
 
 /-- **presentation independence of the physical state.**  Two values with the same documented meaning at the builder's
 field, pushed onto two states that agree up to `erase` (e.g. the same state; or the states two presentations of the
 preceding records have left): the resulting states agree up to `erase`. -/
 theorem push_presentation_physical (ext : Ext) (x y : SVal) (b1 b2 b1' b2' : B) (dt : DataType) (n : Bool) (md : Metadata)
-    (hx : noRaw x = true) (hy : noRaw y = true) (hwf1 : WFB b1) (hwf2 : WFB b2) (hs1 : Safe b1) (hs2 : Safe b2)
+    (hx : noRaw x = true) (hy : noRaw y = true) (hwf1 : WFH b1) (hwf2 : WFH b2) (hs1 : NoDictKey b1) (hs2 : NoDictKey b2)
     (hsh1 : Shape b1 dt n md) (hsh2 : Shape b2 dt n md) (he : erase b1 = erase b2)
     (hsame : interpDT ext dt n md x = interpDT ext dt n md y)
     (h1 : push ext b1 x = .ok b1') (h2 : push ext b2 y = .ok b2') : erase b1' = erase b2' := by
@@ -62,7 +66,7 @@ theorem finish_physical (ext : Ext) (b1 b2 : B) (he : erase b1 = erase b2) : fin
 
 /-- whole batches, from states equal up to `erase` -/
 theorem foldl_presentation_physical (ext : Ext) (dt : DataType) (n : Bool) (md : Metadata) :
-    ∀ (rows1 rows2 : List SVal) (b1 b2 r1 r2 : B), WFB b1 → WFB b2 → Safe b1 → Safe b2 → Shape b1 dt n md → Shape b2 dt n md →
+    ∀ (rows1 rows2 : List SVal) (b1 b2 r1 r2 : B), WFH b1 → WFH b2 → NoDictKey b1 → NoDictKey b2 → Shape b1 dt n md → Shape b2 dt n md →
     erase b1 = erase b2 → (∀ x ∈ rows1, noRaw x = true) → (∀ x ∈ rows2, noRaw x = true) →
     rows1.map (interpDT ext dt n md) = rows2.map (interpDT ext dt n md) →
     rows1.foldlM (push ext) b1 = .ok r1 → rows2.foldlM (push ext) b2 = .ok r2 → erase r1 = erase r2
@@ -77,19 +81,20 @@ theorem foldl_presentation_physical (ext : Ext) (dt : DataType) (n : Bool) (md :
     simp only [List.map_cons, List.cons.injEq] at hs
     have hx := hr1 x (by simp)
     have hy := hr2 y (by simp)
-    obtain ⟨hw1', hs1', hsh1', _⟩ := C01.push_interp ext x b1 c1 dt n md (noRaw_ssa x hx) (Or.inl hx) hw1 hs1 hsh1 hc1
-    obtain ⟨hw2', hs2', hsh2', _⟩ := C01.push_interp ext y b2 c2 dt n md (noRaw_ssa y hy) (Or.inl hy) hw2 hs2 hsh2 hc2
+    obtain ⟨hw1', hs1', hsh1', _⟩ := C01.push_interp' ext x b1 c1 dt n md (noRaw_ssa x hx) (Or.inl hx) hw1 hs1 hsh1 hc1
+    obtain ⟨hw2', hs2', hsh2', _⟩ := C01.push_interp' ext y b2 c2 dt n md (noRaw_ssa y hy) (Or.inl hy) hw2 hs2 hsh2 hc2
     exact foldl_presentation_physical ext dt n md rows1 rows2 c1 c2 r1 r2 hw1' hw2' hs1' hs2' hsh1' hsh2'
       (push_presentation_physical ext x y b1 b2 c1 c2 dt n md hx hy hw1 hw2 hs1 hs2 hsh1 hsh2 he hs.1 hc1 hc2)
       (fun z hz => hr1 z (by simp [hz])) (fun z hz => hr2 z (by simp [hz])) hs.2 h1 h2
 
 /-- the builder states two presentations of one logical batch leave behind agree up to `erase` -/
 theorem runRows_presentation_physical (ext : Ext) (fields : List Field) (rows1 rows2 : List SVal) (root0 r1 r2 : B)
-    (hc : fields.all coveredF = true) (h0 : newRoot fields = .ok root0) (hsafe : Safe root0)
+    (hc : fields.all coveredF = true) (h0 : newRoot fields = .ok root0)
     (hraw1 : ∀ x ∈ rows1, noRaw x = true) (hraw2 : ∀ x ∈ rows2, noRaw x = true)
     (hsame : rows1.map (interpRow ext fields) = rows2.map (interpRow ext fields))
     (h1 : runRows ext fields rows1 = .ok r1) (h2 : runRows ext fields rows2 = .ok r2) : erase r1 = erase r2 := by
-  obtain ⟨hw0, _, _⟩ := newRoot_fresh h0
+  have hw0 := Build.WFH_of_WFB _ (newRoot_fresh h0).1
+  have hsafe := Build.newRoot_NoDictKey h0
   have hsh := newRoot_shape hc h0
   simp only [runRows, h0] at h1 h2
   exact foldl_presentation_physical ext _ false [] rows1 rows2 root0 root0 r1 r2 hw0 hw0 hsafe hsafe hsh hsh rfl hraw1 hraw2
@@ -115,10 +120,10 @@ theorem buildArrays_physical (ext : Ext) (r1 r2 : B) (he : erase r1 = erase r2) 
 record the same documented value `interpRow` (records matched by NAME whatever the presentation: struct / map with
 string keys / tuple in schema order, any field order, extra fields, absent nullable field vs explicit `None`, `Some` /
 newtype layers, integer widths, bytes vs sequences of `u8`, …) — both accepted by `to_marrow`: the returned arrays
-are EQUAL, buffer by buffer.  (Acceptance of one implies acceptance of the other: `C11Accept.C11_presentations_success`.) -/
+are EQUAL, buffer by buffer.  NO `Safe` hypothesis (dictionaries with non-nullable keys below nullable structs included:
+also the slots hidden below a null agree).  (Acceptance of one implies acceptance of the other: `C11Accept.C11_presentations_success`.) -/
 theorem C11_presentations_physical (ext : Ext) (fields : List Field) (rows1 rows2 : List SVal) (arrs1 arrs2 : List Arr)
     (hcov : fields.all Build.coveredF = true)
-    (hsafe : ∀ root0, newRoot fields = .ok root0 → Safe root0)
     (hraw1 : ∀ x ∈ rows1, noRaw x = true) (hraw2 : ∀ x ∈ rows2, noRaw x = true)
     (hsame : rows1.map (interpRow ext fields) = rows2.map (interpRow ext fields))
     (h1 : toMarrow ext fields rows1 = .ok arrs1) (h2 : toMarrow ext fields rows2 = .ok arrs2) : arrs1 = arrs2 := by
@@ -132,7 +137,7 @@ theorem C11_presentations_physical (ext : Ext) (fields : List Field) (rows1 rows
   | error e => simp [runRows, h0, bind, Except.bind] at hr1
   | ok root0 =>
     exact buildArrays_physical ext r1 r2
-      (runRows_presentation_physical ext fields rows1 rows2 root0 r1 r2 hcov h0 (hsafe root0 h0) hraw1 hraw2 hsame hr1 hr2)
+      (runRows_presentation_physical ext fields rows1 rows2 root0 r1 r2 hcov h0 hraw1 hraw2 hsame hr1 hr2)
       a1 a2 ha1 ha2
 
 /-- **C11 along histories, physical.**  Two histories (push / extend / `Serializer` / build, any chunking of the rows
@@ -140,7 +145,7 @@ within a batch) on builders of the same schema whose batches are, batch by batch
 rows in whatever presentation: every build of the one returns the SAME arrays as the corresponding build of the
 other.  (Each build returns physically the arrays of the one-shot conversion of its batch: `C10.run_oneShot`.) -/
 theorem C11_histories_physical (ext : Ext) (fields : List Field) (r0 : B) (h0 : newRoot fields = .ok r0)
-    (hcov : fields.all Build.coveredF = true) (hsafe : Safe r0)
+    (hcov : fields.all Build.coveredF = true)
     (ops ops' : List C10.Op) (hraw : C10.OpsOK (fun x => noRaw x = true) ops)
     (hraw' : C10.OpsOK (fun x => noRaw x = true) ops')
     (hsame : (C10.batchesFrom [] ops).map (·.map (interpRow ext fields)) =
@@ -160,7 +165,7 @@ theorem C11_histories_physical (ext : Ext) (fields : List Field) (r0 : B) (h0 : 
   simp only [List.getElem?_map, List.getElem?_eq_getElem (show k < (C10.batchesFrom [] ops).length by omega),
     List.getElem?_eq_getElem (show k < (C10.batchesFrom [] ops').length by omega), Option.map_some,
     Option.some.injEq] at e
-  exact C11_presentations_physical ext fields _ _ _ _ hcov (fun r hr => by rw [h0] at hr; cases hr; exact hsafe)
+  exact C11_presentations_physical ext fields _ _ _ _ hcov
     (C10.mem_batchesFrom (fun x => noRaw x = true) ops [] (by simp) hraw _ (List.getElem_mem (by omega)))
     (C10.mem_batchesFrom (fun x => noRaw x = true) ops' [] (by simp) hraw' _ (List.getElem_mem (by omega)))
     e (g1 k hk1 (by omega)).2 (g2 k hk2 (by omega)).2
@@ -171,12 +176,11 @@ mean what `Item(v)` means (`items_same_as_records`, `items_same_as_maps`), `to_m
 `Items(vs)` and for `rows`.  Through `extend` / `Serializer`: `items_extRows`, `items_serRows`. -/
 theorem items_arrays_physical (ext : Ext) (fields : List Field) (al : Nat) (vs rows : List SVal) (arrs1 arrs2 : List Arr)
     (hcov : fields.all Build.coveredF = true)
-    (hsafe : ∀ root0, newRoot fields = .ok root0 → Safe root0)
     (hraw1 : ∀ v ∈ vs, noRaw v = true) (hraw2 : ∀ x ∈ rows, noRaw x = true)
     (hsame : (vs.map (serItem al)).map (interpRow ext fields) = rows.map (interpRow ext fields))
     (h1 : toMarrow ext fields (vs.map (serItem al)) = .ok arrs1) (h2 : toMarrow ext fields rows = .ok arrs2) :
     arrs1 = arrs2 :=
-  C11_presentations_physical ext fields _ rows arrs1 arrs2 hcov hsafe
+  C11_presentations_physical ext fields _ rows arrs1 arrs2 hcov
     (by
       intro x hx
       obtain ⟨v, hv, rfl⟩ := List.mem_map.1 hx
@@ -186,10 +190,10 @@ theorem items_arrays_physical (ext : Ext) (fields : List Field) (al : Nat) (vs r
 /-- `Items(vs)` and the explicit one-field records `nm { item: v }` of any struct type: the same arrays -/
 theorem items_as_records_physical (ext : Ext) (fields : List Field) (al al' : Nat) (nm : String) (vs : List SVal)
     (arrs1 arrs2 : List Arr) (hcov : fields.all Build.coveredF = true)
-    (hsafe : ∀ root0, newRoot fields = .ok root0 → Safe root0) (hraw : ∀ v ∈ vs, noRaw v = true)
+    (hraw : ∀ v ∈ vs, noRaw v = true)
     (h1 : toMarrow ext fields (vs.map (serItem al)) = .ok arrs1)
     (h2 : toMarrow ext fields (vs.map fun v => SVal.record nm (.cons "item" al' v .nil)) = .ok arrs2) : arrs1 = arrs2 :=
-  items_arrays_physical ext fields al vs _ arrs1 arrs2 hcov hsafe hraw
+  items_arrays_physical ext fields al vs _ arrs1 arrs2 hcov hraw
     (by
       intro x hx
       obtain ⟨v, hv, rfl⟩ := List.mem_map.1 hx
@@ -199,10 +203,10 @@ theorem items_as_records_physical (ext : Ext) (fields : List Field) (al al' : Na
 /-- `Items(vs)` and the maps `{"item": v}`: the same arrays -/
 theorem items_as_maps_physical (ext : Ext) (fields : List Field) (al : Nat) (vs : List SVal)
     (arrs1 arrs2 : List Arr) (hcov : fields.all Build.coveredF = true)
-    (hsafe : ∀ root0, newRoot fields = .ok root0 → Safe root0) (hraw : ∀ v ∈ vs, noRaw v = true)
+    (hraw : ∀ v ∈ vs, noRaw v = true)
     (h1 : toMarrow ext fields (vs.map (serItem al)) = .ok arrs1)
     (h2 : toMarrow ext fields (vs.map fun v => SVal.map (.cons (.str "item") v .nil)) = .ok arrs2) : arrs1 = arrs2 :=
-  items_arrays_physical ext fields al vs _ arrs1 arrs2 hcov hsafe hraw
+  items_arrays_physical ext fields al vs _ arrs1 arrs2 hcov hraw
     (by
       intro x hx
       obtain ⟨v, hv, rfl⟩ := List.mem_map.1 hx
@@ -237,7 +241,7 @@ and an absent nullable field / a map with the keys in the other order and a tupl
 widths) with every hypothesis discharged: the arrays are equal -/
 example : ∀ arrs1 arrs2, toMarrow {} exFields exRows1 = .ok arrs1 → toMarrow {} exFields exRows2 = .ok arrs2 →
     arrs1 = arrs2 := fun arrs1 arrs2 h1 h2 =>
-  C11_presentations_physical {} exFields exRows1 exRows2 arrs1 arrs2 (by decide) exSafe (by decide) (by decide)
+  C11_presentations_physical {} exFields exRows1 exRows2 arrs1 arrs2 (by decide) (by decide) (by decide)
     exSame h1 h2
 
 /-- … and both are accepted (`exOk`), so the statement is about actual arrays -/
@@ -267,7 +271,8 @@ example : ∀ b1 b2,
     push {} exNested (.map (.cons (.str "k") (.tuple (.cons (.int .i64 1) (.cons (.int .i64 2) .nil))) .nil)) = .ok b2 →
     erase b1 = erase b2 := fun b1 b2 h1 h2 =>
   push_presentation_physical {} _ _ exNested exNested b1 b2 _ false []
-    (by decide) (by decide) exNested_wf exNested_wf (by simp [exNested, Safe, SafeL]) (by simp [exNested, Safe, SafeL])
+    (by decide) (by decide) (Build.WFH_of_WFB _ exNested_wf) (Build.WFH_of_WFB _ exNested_wf)
+    (by simp [exNested, NoDictKey, NoDictKeyL]) (by simp [exNested, NoDictKey, NoDictKeyL])
     exNested_shape exNested_shape rfl (by decide +kernel) h1 h2
 
 /-- both pushes succeed, with different scratch state -/
@@ -288,8 +293,7 @@ example : (∀ outs outs' fin fin', C10.run {} C10.exRoot0 exOpsP = .ok (outs, f
       outs.map (·.2) = outs'.map (·.2)) ∧
     (C10.run {} C10.exRoot0 exOpsP).isOk = true ∧ (C10.run {} C10.exRoot0 exOpsQ).isOk = true :=
   ⟨fun outs outs' fin fin' h h' =>
-    C11_histories_physical {} C10.exFields C10.exRoot0 C10.exNew (by decide)
-      (by simp [C10.exRoot0, Safe, SafeL, B.isDict]) exOpsP exOpsQ (by unfold C10.OpsOK; decide) (by unfold C10.OpsOK; decide)
+    C11_histories_physical {} C10.exFields C10.exRoot0 C10.exNew (by decide) exOpsP exOpsQ (by unfold C10.OpsOK; decide) (by unfold C10.OpsOK; decide)
       (by decide +kernel) outs outs' fin fin' h h',
    by decide +kernel, by decide +kernel⟩
 
@@ -297,13 +301,15 @@ example : (∀ outs outs' fin fin', C10.run {} C10.exRoot0 exOpsP = .ok (outs, f
 example : ∀ arrs1 arrs2, toMarrow {} [.mk "item" .int32 false []] ([SVal.int .u8 7, .int .u8 9].map (serItem 0)) = .ok arrs1 →
     toMarrow {} [.mk "item" .int32 false []] ([SVal.int .u8 7, .int .u8 9].map fun v => SVal.map (.cons (.str "item") v .nil)) = .ok arrs2 →
     arrs1 = arrs2 := fun arrs1 arrs2 h1 h2 =>
-  items_as_maps_physical {} _ 0 _ arrs1 arrs2 (by decide)
-    (by
-      intro root0 h0
-      rw [show newRoot [Field.mk "item" .int32 false []] = .ok (.struct "$" 0 none
-        (.cons (.leaf "$.item" (.int .i32) none []) ⟨"item", false, []⟩ .nil) [none] 0 [false]) from by decide] at h0
-      cases h0
-      simp [Safe, SafeL])
-    (by decide) h1 h2
+  items_as_maps_physical {} _ 0 _ arrs1 arrs2 (by decide) (by decide) h1 h2
+
+/-- `C11_presentations_physical` on the schema OUTSIDE `Safe` of Props/C01Obs.lean (`C01.exUnsafe_not_safe`: a dictionary with
+non-nullable keys below a nullable struct): the batch null, {d: "a"}, null as structs and as maps / an absent nullable field —
+every hypothesis discharged, the arrays are equal, the placeholder keys hidden below the nulls included -/
+example : ∀ arrs1 arrs2, toMarrow {} C01.exUnsafeFields C01.exUnsafeRows = .ok arrs1 →
+    toMarrow {} C01.exUnsafeFields
+      [.map .nil, .map (.cons (.str "s") (.map (.cons (.str "d") (.str "a") .nil)) .nil), .record "Q" .nil] = .ok arrs2 →
+    arrs1 = arrs2 := fun arrs1 arrs2 h1 h2 =>
+  C11_presentations_physical {} C01.exUnsafeFields _ _ arrs1 arrs2 (by decide) (by decide) (by decide) (by decide +kernel) h1 h2
 
 end SaModel.Props.C11
